@@ -224,7 +224,9 @@ theorem propagateDftCommon_eq (data : List (Fld K)) (αr αc : R) (S0 S1 P0 P1 o
     simp only []
     induction data with
     | nil => rfl
-    | cons f fs ih => simp only [List.filterMap_cons, List.map_cons]; rw [ih]
+    | cons f fs ih =>
+      simp only [Gen.dftCallShape, Gen.dftCallShift, Gen.dftCallOffset, Gen.dftFieldOffset] at ih ⊢
+      simp only [List.filterMap_cons, List.map_cons]; rw [ih]
 
 /-- **propagation with a common tilt shift and an output mask is additive in the embedded field**: as `propagate_linear_emb`,
 for builderB's `propagateDft` (the model the driver runs) when all fields carry the same shift `fix + sub` — whatever the
